@@ -10,7 +10,7 @@ import warnings
 
 import networkx as nx
 
-from common import Atom, Case, Run, call_impl, prepare, ImplError, dbl, sx, sx_of
+from common import Atom, Case, Run, call_impl, prepare, ImplError, dbl, sx, sx_of, input_variant
 
 warnings.filterwarnings("ignore")
 
@@ -330,21 +330,44 @@ def idkind(g):
     return "ids=sparse"
 
 
-def case_roundtrip(obj, tf, origin):
+# its_to_torch only READS the graph: it may be frozen, a sub-graph view of a larger graph, carry irrelevant extra
+# attributes, have list instead of tuple labels, or numpy ids / numpy half orders
+VARIANT_KINDS = ("extra_attrs", "numpy", "frozen", "view", "list_labels")
+FORM_SHARE = 0.12
+
+
+def as_variant(obj, rng, kinds=VARIANT_KINDS):
+    """the graph of `obj` in another FORM (common.input_variant) -> (graph, tag); the request is that of the plain graph"""
     g = as_graph(obj)
+    v, form = input_variant(g, rng, kinds)
+    if sx(enc_its(v)) != sx(enc_its(g)):
+        raise AssertionError("input_variant changed the wire form (harness defect)")
+    return v, form
+
+
+def case_roundtrip(obj, tf, origin, form_rng=None, form_kinds=VARIANT_KINDS):
+    g = as_graph(obj)
+    form = None
+    if form_rng is not None:
+        obj, form = as_variant(obj, form_rng, form_kinds)
     out = call_impl(impl_roundtrip, obj, tf)
     e = enc_its(g)
     dom = g.number_of_edges() >= 1
     return Case([Atom("C18"), Atom("roundtrip"), tf, e], out, in_domain=dom,
-                meta={"origin": origin, "tf": tf}, nontrivial_key=("rt", tf, sx(e)) if dom else None,
-                tags=("roundtrip", "tf=%d" % tf, origin, idkind(g)))
+                meta={"origin": origin, "tf": tf, "variant": form}, nontrivial_key=("rt", tf, sx(e), form) if dom else None,
+                tags=("roundtrip", "tf=%d" % tf, origin, idkind(g)) + (("input_form", form) if form else ()))
 
 
-def case_batch(objs, tf, origin):
-    out = call_impl(impl_batch, objs, tf)
+def case_batch(objs, tf, origin, form_rng=None):
     e = [enc_its(o) for o in objs]
-    return Case([Atom("C18"), Atom("batch"), tf, e], out, meta={"origin": origin, "tf": tf, "k": len(objs)},
-                nontrivial_key=("b", tf, sx(e)), tags=("batch", "tf=%d" % tf, "batch_k=%d" % len(objs), origin))
+    forms = None
+    if form_rng is not None:
+        vs = [as_variant(o, form_rng) for o in objs]
+        objs, forms = [v for v, _ in vs], [f for _, f in vs]
+    out = call_impl(impl_batch, objs, tf)
+    return Case([Atom("C18"), Atom("batch"), tf, e], out, meta={"origin": origin, "tf": tf, "k": len(objs), "variant": forms},
+                nontrivial_key=("b", tf, sx(e), tuple(forms or ())),
+                tags=("batch", "tf=%d" % tf, "batch_k=%d" % len(objs), origin) + (("input_form",) + tuple(sorted(set(forms))) if forms else ()))
 
 
 def small_subsets(rng, items, limit):
@@ -537,6 +560,9 @@ def run(tier, seed):
     for origin, obj in lib:                                   # ids from 1: F11a
         for tf in (0, 1, 2):
             cases.append(case_roundtrip(obj, tf, origin))
+    for i, (origin, obj) in enumerate(lib):                   # every library object once in every other input form
+        for j, kind in enumerate(VARIANT_KINDS):
+            cases.append(case_roundtrip(obj, (i + j) % 3, origin, form_rng=rng, form_kinds=(kind,)))
     objs = [o for _, o in lib]
     for k in range(1, 7):                                     # F11b (transforms), m29 (k >= 3)
         for tf in (0, 1, 2):
@@ -613,13 +639,14 @@ def run(tier, seed):
                              symbols=syms if k % 7 == 0 else COMMON)
             origin = "random-graph"
         pool.append(obj)
-        cases.append(case_roundtrip(obj, tf, origin))
+        # the FORM of the input (12%): extra attributes / numpy ids and half orders / frozen / view / list labels
+        cases.append(case_roundtrip(obj, tf, origin, form_rng=rng if rng.random() < FORM_SHARE else None))
     for k in range(n_batch):
         tf = rng.choice([0, 1, 1, 2])
         size = rng.randint(1, 6)
         members = [rng.choice(pool) if rng.random() < 0.7 else rng.choice(objs) for _ in range(size)]
         members = [m for m in members if as_graph(m).number_of_edges() >= 1] or [objs[0]]
-        cases.append(case_batch(members, tf, "generated"))
+        cases.append(case_batch(members, tf, "generated", form_rng=rng if rng.random() < FORM_SHARE else None))
     for k in range(n_ind):
         obj = rand_graph(rng, n=rng.randint(2, 5), extra=rng.randint(0, 2))
         cases += cases_induced(rng, obj, rng.choice([0, 0, 1, 2]), "random-graph", limit=31 if quick else 64)
@@ -695,7 +722,8 @@ def run(tier, seed):
         level="proof",
         rule="library ITS objects (ITS.from_smiles, ids from 1), parsed ITS patterns, random element graphs (2-40 nodes; ids "
              "0..n-1 / 1..n / shuffled / sparse; None, 0, 1, 1.5, 2, 3 orders), one graph per element of the reference table; "
-             "x transforms {default, 2 custom}; batches of 1-6; ITSDataset; every edge subset / edge-inducing node subset of "
+             "x transforms {default, 2 custom}; batches of 1-6; ITSDataset; 12% of the generated round-trip / batch inputs and every library object "
+             "handed to its_to_torch in another FORM (extra attributes, numpy ids / half orders, nx.freeze, sub-graph view, list labels; tags variant=*); every edge subset / edge-inducing node subset of "
              "small graphs; prune from every single node and random start sets, radii 0-4, on converted and raw (directed, "
              "parallel-column) tensors; prune_rc; non-trivial = distinct (operation, input) with >= 1 edge",
         checker_cmd="cd lean && lake build FGVerif.Proofs.C18 && lake env lean FGVerif/Audit/C18.lean",
@@ -748,7 +776,13 @@ def replay(path):
     if not prepare(r, PROOFS, "C18"):
         return 2
     ints = lambda l: [int(v) for v in l]
-    if op == "roundtrip":
+    form = (d.get("meta") or {}).get("variant")
+    if op == "roundtrip" and isinstance(form, str) and form != "variant=plain":
+        import random
+        print("REPLAY re-applying the recorded input form: %s" % form)
+        c = case_roundtrip(dec_its(req[3]), int(req[2]), "replay", form_rng=random.Random(d.get("seed", 0)),
+                           form_kinds=(form.split("=")[1],))
+    elif op == "roundtrip":
         c = case_roundtrip(dec_its(req[3]), int(req[2]), "replay")
     elif op == "batch":
         c = case_batch([dec_its(x) for x in req[3]], int(req[2]), "replay")
